@@ -279,6 +279,10 @@ func (w *World) BuildGenesis(app *exocoreapp.ExocoreApp) (map[string]json.RawMes
 			ei.CurrentEpoch = e.CurrentEpoch
 			ei.CurrentEpochStartTime = ei.StartTime.Add(time.Duration(e.CurrentEpoch-1) * ei.Duration)
 			ei.CurrentEpochStartHeight = 0
+		} else if e.CurrentEpoch != 0 {
+			// a stale number on an identifier whose counting has not started (genesis validation
+			// accepts it): the first tick must still make the number 1
+			ei.CurrentEpoch = e.CurrentEpoch
 		}
 		eps = append(eps, ei)
 	}
